@@ -41,7 +41,7 @@ Definition is_space (c : ascii) : bool :=
 
 Definition digit_val (c : ascii) : N := N.of_nat (nat_of_ascii c - 48).
 
-(* longest prefix of s whose characters satisfy f (reversed accumulator), and the rest *)
+(* longest prefix of s whose characters satisfy f, and the rest *)
 Fixpoint span (f : ascii -> bool) (s : string) : string * string :=
   match s with
   | String c r => if f c then let (a, b) := span f r in (String c a, b) else (EmptyString, s)
@@ -191,7 +191,12 @@ Definition binop_of (t : token) : option (binop * nat * nat) :=
   | _ => None
   end%nat.
 
-Definition neg_bp : nat := 7.     (* operand of a unary minus:  -a^b = -(a^b),  -a*b = (-a)*b *)
+Definition neg_bp : nat := 7.
+
+Definition is_close (sq : bool) (t : token) : bool :=
+  match t with TRP => negb sq | TRB => sq | _ => false end.
+
+Definition is_comma (t : token) : bool := match t with TComma => true | _ => false end.     (* operand of a unary minus:  -a^b = -(a^b),  -a*b = (-a)*b *)
 
 Inductive pres (A : Type) : Type := POk (a : A) | PErr | POof.
 Arguments POk {A} a.
@@ -287,23 +292,30 @@ with p_args (n : nat) (sq : bool) (ts : list token) {struct n} : pres (list aexp
   match n with
   | O => POof
   | S n =>
-      match ts, sq with
-      | TRP :: r, false => POk ([], r)
-      | TRB :: r, true => POk ([], r)
-      | _, _ =>
-          match p_expr n 0 ts with
-          | POk (a, TComma :: r) =>
-              match p_args n sq r with
-              | POk (l, r') => POk (a :: l, r')
-              | PErr => PErr
-              | POof => POof
-              end
-          | POk (a, TRP :: r) => if sq then PErr else POk ([a], r)
-          | POk (a, TRB :: r) => if sq then POk ([a], r) else PErr
-          | POk _ => PErr
-          | PErr => PErr
-          | POof => POof
-          end
+      match ts with
+      | t :: r => if is_close sq t then POk ([], r) else p_items n sq ts
+      | [] => PErr
+      end
+  end
+
+(* e {, e} close *)
+with p_items (n : nat) (sq : bool) (ts : list token) {struct n} : pres (list aexpr * list token) :=
+  match n with
+  | O => POof
+  | S n =>
+      match p_expr n 0 ts with
+      | POk (a, t :: r) =>
+          if is_close sq t then POk ([a], r)
+          else if is_comma t then
+            match p_items n sq r with
+            | POk (l, r') => POk (a :: l, r')
+            | PErr => PErr
+            | POof => POof
+            end
+          else PErr
+      | POk (_, []) => PErr
+      | PErr => PErr
+      | POof => POof
       end
   end.
 
